@@ -152,6 +152,10 @@ func (e *Expression) Add(res fhir.Resource, name string, value fhir.Base, option
 			return fmt.Errorf("%w: '%v'", fhirpath.ErrInvalidField, name)
 		}
 	}
+	if field.Message() == nil {
+		// Scalar proto fields (a primitive's "value", "precision", ...) are not FHIR elements.
+		return fmt.Errorf("%w: '%v'", fhirpath.ErrInvalidField, name)
+	}
 
 	if !field.IsList() && ref.Has(field) {
 		return fmt.Errorf("%w: unable to add value to populated scalar field '%v' in %v resource", ErrNotPatchable, name, resource.TypeOf(res))
